@@ -1,6 +1,6 @@
 """Per-property configuration of tools/check: engines (correspondence runs), claimed level,
 trusted base.  `props_file: True` means coq/theories/Props/<id>.v exists and its theorems are
-re-checked and audited on every run."""
+re-checked and audited on every run.  tools/mkmanifest.py derives MANIFEST.json from this."""
 
 ALLOWED_AXIOMS = set([
     # none needed so far; axioms of the standard library would be named here
@@ -9,19 +9,55 @@ ALLOWED_AXIOMS = set([
 def sys_engine(nq, nt, extra=""):
     return {"name": "sys", "cmd": "sys", "quick": "--n %d %s" % (nq, extra), "thorough": "--n %d %s" % (nt, extra), "timeout": 3000}
 
+def io_engine(nq, nt, pq, pt, extra=""):
+    return {"name": "io", "cmd": "io", "quick": "--n %d --points %d %s" % (nq, pq, extra), "thorough": "--n %d --points %d %s" % (nt, pt, extra), "timeout": 3000}
+
 COMMON_ASSUME = [
     "the real hash functions (Blake3 / SHA-2) are collision free and never output all-zero; the model's nodes are free terms evaluated by the harness with the real hasher",
     "value bytes are interned by the harness: equal bytes <-> equal model value ids",
 ]
+TB = [
+    "hand-written Coq models (coq/theories/*.v) tied to /repo by the correspondence runs named in the evidence (differential testing: sampled, not proved)",
+]
+PROOF_TECH = "Coq 8.16 theorems about executable models + differential correspondence of the extracted models with the implementation"
 
 PROPS = {
-    "C01": {"level": "exploration", "props_file": False, "engines": [sys_engine(96, 1500)], "assumptions": COMMON_ASSUME},
-    "C02": {"level": "exploration", "props_file": False, "engines": [sys_engine(96, 1500)], "assumptions": COMMON_ASSUME},
-    "C05": {"level": "exploration", "props_file": False, "engines": [sys_engine(96, 1500)], "assumptions": COMMON_ASSUME},
-    "C06": {"level": "exploration", "props_file": False, "engines": [sys_engine(128, 2000)], "assumptions": COMMON_ASSUME},
-    "C09": {"level": "exploration", "props_file": False, "engines": [sys_engine(128, 2000)], "assumptions": COMMON_ASSUME},
-    "C10": {"level": "exploration", "props_file": False, "engines": [sys_engine(128, 2000)], "assumptions": COMMON_ASSUME},
-    "C11": {"level": "exploration", "props_file": False, "engines": [sys_engine(128, 2000)], "assumptions": COMMON_ASSUME},
-    "C12": {"level": "exploration", "props_file": False, "engines": [sys_engine(128, 2000)], "assumptions": COMMON_ASSUME},
-    "C13": {"level": "exploration", "props_file": False, "engines": [sys_engine(64, 800)], "assumptions": COMMON_ASSUME},
+    "C01": {"level": "proof", "props_file": True, "engines": [sys_engine(96, 1500)], "assumptions": COMMON_ASSUME, "trusted_base": TB,
+            "engine": "E-sys", "design": "C01",
+            "text": "Theorems (all histories, keys, values): reads of the abstract store equal the last committed write; delete = absence as an equation; a commit applies exactly its batch. Correspondence: every read (handle and later session) after every commit of generated histories (values straddling in-leaf/overflow/page boundaries, clustered keys, all configurations) against the extracted Coq Store.",
+            "note": "Proved for the Coq Store specification only; that the B-tree update stages implement it is carried by the differential runs (sampled). Trusted: extraction, OCaml driver, Rust harness."},
+    "C02": {"level": "proof", "props_file": True, "engines": [sys_engine(96, 1500)], "assumptions": COMMON_ASSUME, "trusted_base": TB,
+            "engine": "E-sys", "design": "C02",
+            "text": "Theorems (all key sets / key lengths / hashers): the specification trie satisfies the NOMT rules and is the unique such trie; the root depends only on the key/value set (history independence); empty -> terminator, single pair -> leaf; the mirrored stack-based build_trie of nomt-core equals the recursive root and never panics. Correspondence: every reported root (Nomt::root, FinishedSession::root, Overlay::root, after reopen) equals the canonical root evaluated with the real hasher.",
+            "note": "The page walker / paging is not modelled; its output root is compared on every commit of generated histories (sampled). build_trie mirror is hand-written (function-level differential planned)."},
+    "C03": {"level": "fault_enumeration", "props_file": False, "engines": [io_engine(24, 200, 60, 400)], "engine": "E-io", "design": "C03",
+            "assumptions": COMMON_ASSUME + ["a process crash is modelled by exit_group at an observed I/O event boundary (libc calls interposed by tools/shim.c, io_uring writes reported by the verif-hooks feature); completed writes stay in the page cache"],
+            "text": "Crash-point enumeration: for generated histories the target operation (commit, non-blocking commit, overlay commit, rollback) runs in a child process that is killed at each observed I/O event (before / after), also inside the recovering open (nested); the directory is reopened and must equal exactly the old or exactly the new state of the Coq Store specification (root, seqn, every touched key, proofs), new iff the switch-over was durable or the call had returned; a further commit must behave as in the model.",
+            "note": "No theorem yet about the sync protocol (planned: Proto.Sync/Recover). Crash = process death only (page cache survives); power loss is C04."},
+    "C05": {"level": "proof", "props_file": True, "engines": [sys_engine(96, 1500)], "assumptions": COMMON_ASSUME, "trusted_base": TB,
+            "engine": "E-sys", "design": "C05",
+            "text": "Theorems (any hasher with correct kinds, any key set, any key): the canonical path proof verifies against the root (mirror of PathProof::verify) and confirms exactly the set's view (value / non-existence), with <= n siblings; under collision freeness a verifying proof IS the canonical one. Correspondence: Session::prove equals the canonical proof (siblings and terminal, evaluated with the real hasher) and verifies/confirms with the real verifier, for present / absent / deleted / diverging keys, cold and warm caches, elided pages, uncommitted overlays.",
+            "note": "Seek / page loading / hash-table probing are not modelled: their output is compared for exact equality (sampled). PathProof mirror hand-written."},
+    "C06": {"level": "exploration", "props_file": False, "engines": [sys_engine(128, 2000)], "assumptions": COMMON_ASSUME, "engine": "E-sys", "design": "C06",
+            "text": "Witness of generated sessions (reads, writes, read-then-writes, deletes of absent keys, several keys per terminal, 1..64 workers): every path verifies against the previous root, reads attest the Coq specification's view, all writes are covered, verify_update over the witnessed writes equals the reported and the canonical new root.",
+            "note": "Theorem verify_update_correct is being proved (VerifyUpdate_proofs.v); until it is registered this check claims exploration only."},
+    "C09": {"level": "proof", "props_file": True, "engines": [sys_engine(128, 2000)], "assumptions": COMMON_ASSUME, "trusted_base": TB, "engine": "E-sys", "design": "C09",
+            "text": "Theorems (abstract machine, all histories): n commits then rollback n restores the values; rollback k then m = rollback k+m; an unservable request leaves the entire state unchanged; the log stays within its limit. Correspondence: histories over commit / overlay commit / rollback(n) / reopen with log lengths 1,2,3,5,100 and multi-page values against the extracted Store (result kind, root, every value, reopen succeeds).",
+            "note": "The reverse-delta representation and the segmented log are not modelled yet (planned Engine.Rollback/Seglog); their behaviour is compared through the API (sampled). Segment roll-over needs the H2 hook (not built): 64 MiB segments never roll in these runs."},
+    "C10": {"level": "proof", "props_file": True, "engines": [sys_engine(128, 2000)], "assumptions": COMMON_ASSUME, "trusted_base": TB, "engine": "E-sys", "design": "C10",
+            "text": "Theorems (abstract machine): reopen leaves values, history, seqn unchanged and later commits / rollbacks behave identically. Correspondence: reopen at random points under a different configuration; root, values, proofs, seqn, hash-table occupancy, and subsequent commits/rollbacks against the never-closed Store.",
+            "note": "Recovery code (index reconstruction, free-list read, occupancy recount) not modelled yet; compared through the API (sampled)."},
+    "C11": {"level": "proof", "props_file": True, "engines": [sys_engine(128, 2000)], "assumptions": COMMON_ASSUME, "trusted_base": TB, "engine": "E-sys", "design": "C11",
+            "text": "Theorems (abstract machine): the view of a session on a chain = committed state with the chain's changes applied oldest first; creating/dropping overlays does not change the committed state; committing a chain in order = committing the batches directly (values and rollback history); an overlay whose parent is not the last committed one is refused. Correspondence: random overlay trees (chains, forks, drops, out-of-order commits, sabotaged chains) against the extracted Store: reads, proofs, roots, refusals (Incomplete / NotAncestor).",
+            "note": "overlay.rs Index/LiveOverlay not mirrored yet; behaviour compared through the API (sampled). Sessions on chains whose base was overtaken (abandoned forks) are out of the property's scope and skipped."},
+    "C12": {"level": "proof", "props_file": True, "engines": [sys_engine(128, 2000)], "assumptions": COMMON_ASSUME, "trusted_base": TB, "engine": "E-sys", "design": "C12",
+            "text": "Theorem (abstract machine): a commit that is rejected (stale / parent not committed) or deferred leaves values, history, seqn, marker, every other change set unchanged; deferred returns the identical state. Correspondence: competing change sets on one base in every order and flavour (blocking / non-blocking, session / overlay, live session forcing deferral, rollback in between), then what rollback(1..3) restores and whether children of a rejected overlay are refused.",
+            "note": "The step order of the four commit entry points in lib.rs is not yet regenerated into SrcFacts; carried by the differential runs (sampled)."},
+    "C13": {"level": "exploration", "props_file": False, "engines": [sys_engine(64, 800)], "assumptions": COMMON_ASSUME, "engine": "E-sys", "design": "C13",
+            "text": "One history executed under sampled points of the option space (workers 1..64, warm-up and preserve-prior hints, cache sizes down to the minimum, io workers, hash-table size/seed, upper-level caching 0..3, prepopulation, Blake3/SHA-2), each compared with the configuration-free Coq specification: reads, roots, proofs, witness verification.",
+            "note": "Thread interleavings are sampled, never enumerated."},
+    "C14": {"level": "fault_enumeration", "props_file": False, "engines": [io_engine(24, 200, 60, 400)], "engine": "E-io", "design": "C14",
+            "assumptions": COMMON_ASSUME + ["an I/O failure is modelled by EIO returned from the interposed libc call / io_uring completion at one observed event (once or persistently)"],
+            "text": "Fault-point enumeration: each observed I/O event of the target operation (write, resize, fsync, unlink, create; libc and io_uring) fails with EIO once or persistently; the call must return an error within a time limit, the handle must report poisoned, the next commit must be refused, and the reopened directory must equal the old or the new state of the Coq Store specification.",
+            "note": "Bucket exhaustion not yet exercised. No theorem yet (planned Proto.Fault)."},
 }
